@@ -151,6 +151,9 @@ class GM:
                 g["ncs"], g["nc"] = name, UNSET
                 self.gncs = name
         elif op == "m":
+            if self.path and len(self.path[-1]) == 1 and self.path[-1][0][0] == "m":
+                # ISO 32000-1 8.5.2.1: an m directly after an m overrides it; no vestige of the earlier one remains
+                self.path = self.path[:-1]
             self.path = self.path + ((("m", (gfx.num(a[0]), gfx.num(a[1]))),),)
         elif op in ("l", "c", "v", "y"):
             if not self.path:
@@ -434,8 +437,11 @@ CTMS = [
 
 
 def gen_paths(maxlen: int, curves: bool) -> Iterator[Tuple[Tuple, ...]]:
-    """every path object of 2..maxlen construction operators: begins with m or re, every m is followed by a segment,
+    """every path object of 2..maxlen construction operators: begins with m or re, every m is followed by a segment
+    or (once per path) by another m that overrides it,
     h only after a segment, nothing but m/re after h or re, end points pairwise distinct"""
+
+    doubled = [False]
 
     def rec(ops, used, state, n):
         # state: "start" (nothing yet), "m" (just moved), "seg" (open subpath with >=1 segment), "closed"
@@ -450,6 +456,11 @@ def gen_paths(maxlen: int, curves: bool) -> Iterator[Tuple[Tuple, ...]]:
                     yield from rec(ops + [("m",) + PTS[i]], used | {i}, "m", n + 1)
             for r in RECTS:
                 yield from rec(ops + [("re",) + r], used, "closed", n + 1)
+        if state == "m" and not doubled[0] and free and n + 2 <= maxlen:
+            # one m directly after another (at most once per path): the later one overrides the earlier
+            doubled[0] = True
+            yield from rec(ops + [("m",) + PTS[free[0]]], used | {free[0]}, "m", n + 1)
+            doubled[0] = False
         if state in ("m", "seg"):
             for i in free:
                 yield from rec(ops + [("l",) + PTS[i]], used | {i}, "seg", n + 1)
